@@ -1094,6 +1094,24 @@ def totality_cases(rng, n_random, quick=True):
         fam.append("//l[normalize-space(.) = '%s']" % a)
     for i in range(0, len(fam), 18):
         out.append(({'doc': ldoc, 'exprs': fam[i:i + 18], 'merged': True, 'binds': []}, 'document-strings'))
+    # (g) predicates that are NUMBER LITERALS of every lexical form -- fractions below one, fractions above one, zero,
+    # huge, negative, leading / trailing dot -- on steps of every axis and on filter expressions (a positional fast
+    # path that casts the number to an index underflows or panics on `a[0.5]`: seeded change W8-C06-2)
+    NLITS = ['0', '1', '2', '4', '0.5', '.25', '0.999', '.5', '0.0000001', '1.5', '2.5', '1.0', '2.000', '3.', '0.', '00', '99999999999999999999',
+             '4294967296', '18446744073709551616', '-1', '-0.5', '1 div 2', '(0 div 0)', '(1 div 0)', '-(1 div 0)', ' 0.5 ', '0.5 + 0']
+    HEADS = ['/r/a', '//*', '/r/*', '//node()', '/r/a/@*', '//text()', '/r/a[2]/preceding-sibling::*', '/r/a/following-sibling::node()',
+             '//b/ancestor::*', '//b/ancestor-or-self::node()', '/r/descendant::*', '//b/preceding::*', '/r/a[1]/following::*', '//b/parent::*', '/r/self::*', '(/r/a)', '(//*)']
+    gdoc = '<r><a x="1" y="2">t<b/></a><a><b>u</b><b/></a><a/>w<c><a><b/></a></c></r>'
+    fam = []
+    for h in HEADS:
+        for nl in NLITS:
+            fam.append('%s[%s]' % (h, nl))
+        fam.append('count(%s[0.5])' % h)
+        fam.append('%s[0.5][1]' % h)
+        fam.append('%s[1][0.5]' % h)
+        fam.append('%s[@x][.5]' % h)
+    for i in range(0, len(fam), 20):
+        out.append(({'doc': gdoc, 'exprs': fam[i:i + 20], 'merged': True, 'binds': []}, 'numeric-literal-predicates'))
     # (d) generated expressions with injected failures, substring() included
     g = Gen(rng, {'substring': 0.3, 'unsupported': 1.0, 'ns_axis': 0.1})
     docs = []
